@@ -620,7 +620,7 @@ theorem WT_call_args_inside {t : DataType} {f : String} {args : ExprList} (h : W
 
 /-- regression witness for the repaired defect: `abs(x)` now narrows `x` to NUMBER -/
 def absX : Raw := .call "abs" (.cons (.field .this "x") .nil)
-theorem call_args_narrowed : build absX = .ok (.call 2 "abs" (.cons (.field 2 (.this 64) "x") .nil)) := by rfl
+theorem call_args_narrowed : build absX = .ok (.call T.NUMBER "abs" (.cons (.field T.NUMBER (.this T.MESSAGE) "x") .nil)) := by rfl
 
 -- non-vacuity: a predicate with a quantifier, an alias and a call is built and satisfies the invariant
 def sampleC03 : Raw :=
